@@ -22,7 +22,7 @@ for d in sorted(os.listdir(root / "seeded")):
         mp.write_text(json.dumps(m, indent=1))
     fp = m.get("first_pass")
     first = "" if fp is None else ("reported" if fp.get("exit") == 1 else "MISSED")
-    rows.append((d, m.get("property", ""), m.get("round", 1), "yes" if rc == 1 else (("no (judged benign, see meta.json)" if m.get("assessment") else "NO") if rc == 0 else f"exit {rc}"), "; ".join(sigs[:2]), first, demo,
+    rows.append((d, m.get("property", ""), m.get("round", 1), "yes" if rc == 1 else (("no (assessed in meta.json: benign or outside the statement)" if m.get("assessment") else "NO") if rc == 0 else f"exit {rc}"), "; ".join(sigs[:2]), first, demo,
                  (m.get("summary") or "")[:150].replace("|", "/").replace("\n", " ")))
 out = ["# Seeded changes and which checks report them", "",
        "Each change was written by an independent sub-agent that saw only the property text (from round two on also the list of mechanisms",
